@@ -1095,6 +1095,13 @@ static void cmd_rng(Toks &T)
     try {
         dd_edge &A = getE(a);
         int fi = forestIndexOf(A);
+        if (fi < 0) {
+            long v = 0;
+            if (which=="MAX") apply(MAX_RANGE, A, v); else apply(MIN_RANGE, A, v);
+            j.i("ok", 1).i("v", v);
+            j.done();
+            return;
+        }
         For &F = getF(fi);
         if (F.rng == 'R') {
             double v = 0;
@@ -1128,6 +1135,15 @@ static void cmd_iter(Toks &T)
         dd_edge &A = getE(a);
         int fi = forestIndexOf(A);
         j.i("af", fi);
+        if (fi < 0) {
+            // misuse: iterating a detached edge; the library must raise an error
+            long cnt = 0;
+            dd_edge::iterator it0 = A.begin(nullptr);
+            for (; it0; ++it0) { if (++cnt > 100000) throw harness_error("iterator does not terminate"); }
+            j.raw("seq", "[]").i("cnt", cnt).i("ok", 1);
+            j.done();
+            return;
+        }
         For &F = getF(fi);
         const Dom &D = getD(F.d);
         const int K = int(D.sizes.size())-1;
